@@ -10,3 +10,5 @@ pub mod cli;
 pub mod c01;
 pub mod fix;
 pub mod c10;
+pub mod project;
+pub mod c14;
